@@ -123,6 +123,35 @@ def executeSeq (t : Tree) (periodic : Bool) (flags upper : Nat) : List Call :=
   (if hasFlag flags flagL2P then l2pAll t upper else []) ++
   (if hasFlag flags flagP2P then p2pAll t.D periodic t.H t.leafGroups else [])
 
+/-! ## target/source executor (`TbfAlgorithmTsm`): sources carry multipoles, targets carry locals and results -/
+
+/-- `TbfAlgorithmTsm::M2L` for one level: the target group's list is built without the existence
+    test, internal entries are appended to the external ones and everything is mapped onto the
+    *source* groups -/
+def m2lLevelTsm (D : Nat) (periodic : Bool) (level : Nat) (tgtGroups srcGroups : List Group) : List Call :=
+  tgtGroups.flatMap fun g =>
+    let (inn, ext) := ilistBlock D periodic level g false
+    (mapIndexesAndBlocks srcGroups (ext ++ inn)).flatMap fun (j, slice) => m2lBetween level (srcGroups.getD j []) slice
+
+/-- `TbfAlgorithmTsm::P2P`: full neighbour list (no upper-half filter, no existence test) plus the
+    self list, mapped onto the source particle groups; one-sided kernel calls -/
+def p2pAllTsm (D : Nat) (periodic : Bool) (H : Nat) (tgtGroups srcGroups : List Group) : List Call :=
+  tgtGroups.flatMap fun g =>
+    let (inn, ext) := nlistBlock D periodic (H-1) g false false
+    let all := ext ++ inn ++ selfListBlock D g
+    (mapIndexesAndBlocks srcGroups all).flatMap fun (j, slice) =>
+      slice.filterMap fun x => if (srcGroups.getD j []).contains x.src then some (Call.p2pTsm x.src x.tgt x.code) else none
+
+/-- `TbfAlgorithmTsm::execute` (sequential order; the OpenMP variant submits P2P before L2P) -/
+def executeTsm (tS tT : Tree) (periodic : Bool) (flags upper : Nat) (ompOrder : Bool := false) : List Call :=
+  let l2p := if hasFlag flags flagL2P then l2pAll tT upper else []
+  let p2p := if hasFlag flags flagP2P then p2pAllTsm tT.D periodic tT.H tT.leafGroups tS.leafGroups else []
+  (if hasFlag flags flagP2M then p2mAll tS upper else []) ++
+  (if hasFlag flags flagM2M then m2mAll tS upper else []) ++
+  (if hasFlag flags flagM2L then (m2lLevels tT.H upper).flatMap fun l => m2lLevelTsm tT.D periodic l (tT.level l) (tS.level l) else []) ++
+  (if hasFlag flags flagL2L then l2lAll tT upper else []) ++
+  (if ompOrder then p2p ++ l2p else l2p ++ p2p)
+
 /-- `TbfOpenmpAlgorithm::execute`: the same wrapper calls in *submission* order (P2P is submitted
     before L2P; P2PInGroup and P2PInner of a group share one task) -/
 def executeOmp (t : Tree) (periodic : Bool) (flags upper : Nat) : List Call :=
